@@ -78,3 +78,102 @@ Qed.
 (** the behaviour before the repair (str(float) alone) is NOT plain decimal: refutation witness (finding D11, fixed) *)
 Example exponent_form_refuted : number (repr_exponent false "1" (-4)) = Some ("1", "e-05").
 Proof. reflexivity. Qed.
+
+(** *** (2) exact value: the text denotes exactly (-1)^neg * 0.ds * 10^k *)
+Lemma digits_val_app a b acc : digits_val (a ++ b) acc = digits_val b (digits_val a acc).
+Proof. revert acc. induction a as [|c a IH]; intros acc; cbn; [reflexivity|]. apply IH. Qed.
+
+Lemma digits_val_acc s acc : digits_val s acc = (acc * Npos (pow10 (String.length s)) + num_of s)%N.
+Proof.
+  unfold num_of. revert acc. induction s as [|c s IH]; intros acc; cbn [digits_val String.length pow10]; [lia|].
+  rewrite IH, (IH (0 * 10 + _)%N). change (N.pos (10 * pow10 (String.length s))) with (10 * N.pos (pow10 (String.length s)))%N. lia.
+Qed.
+
+Lemma num_of_app a b : num_of (a ++ b) = (num_of a * Npos (pow10 (String.length b)) + num_of b)%N.
+Proof. unfold num_of at 1. rewrite digits_val_app, digits_val_acc. reflexivity. Qed.
+
+Lemma num_of_zeros n : num_of (zeros n) = 0%N.
+Proof. induction n as [|n IH]; [reflexivity|]. cbn [zeros]. change (String "0" (zeros n)) with ("0" ++ zeros n). rewrite num_of_app, IH. reflexivity. Qed.
+Lemma length_zeros n : String.length (zeros n) = n.
+Proof. induction n; cbn; congruence. Qed.
+Lemma pow10_add a b : pow10 (a + b) = (pow10 a * pow10 b)%positive.
+Proof. induction a as [|a IH]; cbn [pow10 plus]; [lia|]. rewrite IH. lia. Qed.
+
+Lemma span_digits_all s : all_digits s -> span Lexer.is_digit s = (s, "").
+Proof. intros H. pose proof (span_all Lexer.is_digit s "" H I) as E. rewrite append_nil_r in E. exact E. Qed.
+
+(** the value of sign ++ ip ++ "." ++ fp as read by the firmware-style reader *)
+Lemma number_value_decimal neg ip fp : all_digits ip -> all_digits fp -> ip <> "" ->
+  number_value (sign_text neg ++ ip ++ String "." fp) ==
+  Qmake ((if neg then -1 else 1) * (Z.of_N (num_of ip) * Zpos (pow10 (String.length fp)) + Z.of_N (num_of fp))) (pow10 (String.length fp)).
+Proof.
+  intros Hi Hf Ni. unfold number_value.
+  assert (E : match sign_text neg ++ ip ++ String "." fp with
+              | String c u => if Ascii.eqb c "-" then (true, u) else if Ascii.eqb c "+" then (false, u) else (false, sign_text neg ++ ip ++ String "." fp)
+              | "" => (false, sign_text neg ++ ip ++ String "." fp) end = (neg, ip ++ String "." fp)).
+  { destruct neg; cbn; [reflexivity|]. destruct ip as [|c ip']; [congruence|]. cbn.
+    assert (D : Lexer.is_digit c = true) by (apply Hi; left; reflexivity).
+    destruct (Ascii.eqb_spec c "-") as [->|]; [discriminate|]. destruct (Ascii.eqb_spec c "+") as [->|]; [discriminate|]. reflexivity. }
+  rewrite E. rewrite (span_all Lexer.is_digit ip (String "." fp)); [|exact Hi|reflexivity].
+  cbn [fst]. rewrite (span_digits_all fp Hf). cbn [fst].
+  rewrite Qred_correct. destruct neg; unfold Qeq; cbn [Qnum Qden]; lia.
+Qed.
+
+Lemma number_value_integer neg ip : all_digits ip -> ip <> "" ->
+  number_value (sign_text neg ++ ip) == Qmake ((if neg then -1 else 1) * Z.of_N (num_of ip)) 1.
+Proof.
+  intros Hi Ni. unfold number_value.
+  assert (E : match sign_text neg ++ ip with
+              | String c u => if Ascii.eqb c "-" then (true, u) else if Ascii.eqb c "+" then (false, u) else (false, sign_text neg ++ ip)
+              | "" => (false, sign_text neg ++ ip) end = (neg, ip)).
+  { destruct neg; cbn; [reflexivity|]. destruct ip as [|c ip']; [congruence|]. cbn.
+    assert (D : Lexer.is_digit c = true) by (apply Hi; left; reflexivity).
+    destruct (Ascii.eqb_spec c "-") as [->|]; [discriminate|]. destruct (Ascii.eqb_spec c "+") as [->|]; [discriminate|]. reflexivity. }
+  rewrite E. rewrite (span_digits_all ip Hi).
+  cbn [fst snd String.length pow10]. rewrite Qred_correct. change (num_of "") with 0%N. destruct neg; unfold Qeq; cbn [Qnum Qden]; lia.
+Qed.
+
+(** the value that [ds] and [k] stand for: 0.ds * 10^k *)
+Definition dec_value (neg : bool) (ds : string) (k : Z) : Q :=
+  let n := Z.of_nat (String.length ds) in
+  let m := ((if neg then -1 else 1) * Z.of_N (num_of ds))%Z in
+  if (n <=? k)%Z then Qmake (m * Zpos (pow10 (Z.to_nat (k - n)))) 1 else Qmake m (pow10 (Z.to_nat (n - k))).
+
+Lemma take_length k ds : (k <= String.length ds)%nat -> String.length (take k ds) = k.
+Proof. revert ds. induction k as [|k IH]; intros ds H; [reflexivity|]. destruct ds; cbn in *; [lia|]. rewrite IH; lia. Qed.
+Lemma dropn_length k ds : String.length (dropn k ds) = (String.length ds - k)%nat.
+Proof. revert ds. induction k as [|k IH]; intros ds; [cbn; lia|]. destruct ds; cbn; [reflexivity|]. apply IH. Qed.
+
+Theorem layout_value_exact neg ds k : all_digits ds -> ds <> "" -> number_value (layout neg ds k) == dec_value neg ds k.
+Proof.
+  intros D NE.
+  assert (NA : forall x, ds ++ x <> "") by (intros x; destruct ds; [congruence | discriminate]).
+  assert (P : forall pz, number_value (sign_text neg ++ positional ds k pz) == dec_value neg ds k).
+  { intros pz. unfold positional, dec_value. set (n := String.length ds).
+    destruct (k <=? 0)%Z eqn:K0.
+    - apply Z.leb_le in K0. change ("0." ++ zeros (Z.to_nat (- k)) ++ ds) with ("0" ++ String "." (zeros (Z.to_nat (- k)) ++ ds)).
+      rewrite number_value_decimal; [|intros c [<-|[]]; reflexivity | apply all_digits_app; [apply all_digits_zeros | exact D] | discriminate].
+      rewrite num_of_app, num_of_zeros, length_append, length_zeros. fold n.
+      assert (KN : (Z.of_nat n <=? k)%Z = false) by (apply Z.leb_gt; destruct ds; [congruence|cbn in n; lia]). rewrite KN.
+      replace (Z.to_nat (Z.of_nat n - k)) with (Z.to_nat (- k) + n)%nat by lia.
+      change (num_of "0") with 0%N. unfold Qeq. cbn [Qnum Qden]. rewrite ?N.mul_0_l, ?N.add_0_l. destruct neg; cbn [Z.of_N]; lia.
+    - apply Z.leb_gt in K0. destruct (k <? Z.of_nat n)%Z eqn:K1.
+      + apply Z.ltb_lt in K1.
+        change (take (Z.to_nat k) ds ++ "." ++ dropn (Z.to_nat k) ds) with (take (Z.to_nat k) ds ++ String "." (dropn (Z.to_nat k) ds)).
+        rewrite number_value_decimal;
+          [|apply all_digits_take; exact D | apply all_digits_dropn; exact D | apply take_nonempty; [lia | exact NE]].
+        assert (KN : (Z.of_nat n <=? k)%Z = false) by (apply Z.leb_gt; lia). rewrite KN.
+        rewrite dropn_length. fold n. replace (Z.to_nat (Z.of_nat n - k)) with (n - Z.to_nat k)%nat by lia.
+        pose proof (num_of_app (take (Z.to_nat k) ds) (dropn (Z.to_nat k) ds)) as NA2. rewrite take_dropn, dropn_length in NA2. fold n in NA2.
+        unfold Qeq. cbn [Qnum Qden]. rewrite NA2. destruct neg; lia.
+      + apply Z.ltb_ge in K1. assert (KN : (Z.of_nat n <=? k)%Z = true) by (apply Z.leb_le; lia). rewrite KN.
+        replace (Z.to_nat (k - Z.of_nat n)) with (Z.to_nat k - n)%nat by lia.
+        destruct pz.
+        * replace (ds ++ zeros (Z.to_nat k - n) ++ ".0") with ((ds ++ zeros (Z.to_nat k - n)) ++ String "." "0") by (rewrite append_assoc; reflexivity).
+          rewrite number_value_decimal; [|apply all_digits_app; [exact D | apply all_digits_zeros] | intros c [<-|[]]; reflexivity | apply NA].
+          rewrite num_of_app, num_of_zeros, length_zeros. change (num_of "0") with 0%N. unfold Qeq. cbn [Qnum Qden String.length pow10]. rewrite ?N.add_0_r. destruct neg; cbn [Z.of_N]; lia.
+        * rewrite append_nil_r. rewrite number_value_integer; [|apply all_digits_app; [exact D | apply all_digits_zeros] | apply NA].
+          rewrite num_of_app, num_of_zeros, length_zeros. unfold Qeq. cbn [Qnum Qden]. rewrite ?N.add_0_r. destruct neg; lia. }
+  unfold layout. fold (sign_text neg). destruct ds as [|d0 ds']; [congruence|].
+  destruct ((-4 <? k) && (k <=? 16))%Z; apply P.
+Qed.
